@@ -4,6 +4,11 @@ Each rule pins one mechanism named in the statement (DESIGN.md section 4). Two r
 from reading the code: R3 also enumerates every access to Engine._prevent_recompute_map (only
 prevent_recalc writes it, apply_user_actions clears it once per user action, everything else
 reads), and R4 follows the row ids of the trigger invalidation back to the *trimmed* update.
+
+Reading the code: every rule function is evaluated through H.guarded_views -- on the source as
+written and on behaviour-preserving normal forms of it (see _h_C.py / _h_C_norm.py) -- and slots
+are filled by role (flow origins, guard atoms, return cases, conditions as boolean formulas),
+not by statement shape or local names.
 """
 import ast
 import os
@@ -377,21 +382,30 @@ def r3_exemptions(run, w):
     loop = None
     for s in walk_no_nested(fn.node):
       if isinstance(s, ast.For) and any(x is pc for x in ast.walk(s)) and \
-          text(s.iter) in (p_cols + ".items()", p_cols):
+          text(H.strip_passthrough(s.iter)) in (p_cols + ".items()", p_cols, p_cols + ".keys()"):
         loop = s
     ok = loop is not None
     if ok:
+      bflow = H.Flow(fn)
       cid = text(loop.target.elts[0]) if isinstance(loop.target, ast.Tuple) else text(loop.target)
-      colv = text(b[eps[1]].value) if isinstance(b[eps[1]], ast.Attribute) and \
-          b[eps[1]].attr == "node" else None
-      is_col = colv is not None and any(
-        isinstance(v, ast.Call) and endswith(dotted(v.func), "get_column") and
-        [text(a) for a in v.args] == [cid] for v in E.local_defs(fn.node, colv))
-      g = _gtexts(H.guards_of(fn.node, _stmt_of(fn.node, pc)))
-      ok = is_col and text(b[eps[2]]) == p_rows and \
+      def column_of(e):
+        """e denotes <table>.get_column(<the loop's column id>)"""
+        v = H.inline(bflow, e)
+        return isinstance(v, ast.Call) and isinstance(v.func, ast.Attribute) and \
+            v.func.attr == "get_column" and [text(a) for a in v.args] == [cid]
+      nodearg = b.get(eps[1])
+      is_col = isinstance(nodearg, ast.Attribute) and nodearg.attr == "node" and \
+          column_of(nodearg.value)
+      def key(e):
+        if isinstance(e, ast.Call) and isinstance(e.func, ast.Attribute) and \
+            e.func.attr == "is_formula" and not e.args and column_of(e.func.value):
+          return "is-formula"
+        return None
+      actual = H.Conditions(fn, bflow, key).of_stmt(_stmt_of(fn.node, pc), scope=loop)
+      ok = is_col and eps[2] in b and text(b[eps[2]]) == p_rows and eps[3] in b and \
           isinstance(b[eps[3]], ast.Constant) and b[eps[3]].value is True and \
-          g in ([("not %s.is_formula()" % colv, True)], [("%s.is_formula()" % colv, False)])
-      wit = "guards %r" % (g,)
+          H.f_equivalent(actual, H.f_not(H.f_atom("is-formula")))
+      wit = "exempted when " + H.f_show(actual)
       # the write loop for the same column precedes it
       sets = fn.nodes_calling(E.is_column_mutation)
       ok = ok and bool(sets)
@@ -401,18 +415,19 @@ def r3_exemptions(run, w):
          witness=wit, fi=fn.fi)
   pe = w.fn("engine.Engine.prevent_recalc")
   eps = pe.fi.params()
-  sd = [s for s in walk_no_nested(pe.node) if isinstance(s, ast.Assign) and
-        isinstance(s.value, ast.Call) and text(s.value.func) == "self.%s.setdefault" % MAP and
-        text(s.value.args[0]) == eps[1] and isinstance(s.targets[0], ast.Name)]
-  ok = len(sd) == 1
+  pflow = H.Flow(pe)
+  SD_T = "self.%s.setdefault(%s, set())" % (MAP, eps[1])
+  def edits(meth):
+    return [c for c in calls_in(pe.node) if isinstance(c.func, ast.Attribute) and
+            c.func.attr == meth and [text(a) for a in c.args] == [eps[2]] and
+            text(H.inline(pflow, c.func.value)) == SD_T]
+  up, du_ = edits("update"), edits("difference_update")
+  ok = len(up) == 1 and len(du_) == 1 and not pflow.du.defs.get(eps[3])
   if ok:
-    sv = sd[0].targets[0].id
-    ifs = [s for s in pe.node.body if isinstance(s, ast.If) and text(s.test) == eps[3]]
-    ok = len(ifs) == 1 and \
-        any(text(c.func) == sv + ".update" and [text(a) for a in c.args] == [eps[2]]
-            for x in ifs[0].body for c in calls_in(x)) and \
-        any(text(c.func) == sv + ".difference_update" and [text(a) for a in c.args] == [eps[2]]
-            for x in ifs[0].orelse for c in calls_in(x))
+    pcond = H.Conditions(pe, pflow, lambda e: "should-prevent" if text(e) == eps[3] else None)
+    flagf = H.f_atom("should-prevent")
+    ok = H.f_equivalent(pcond.of_stmt(_stmt_of(pe.node, up[0])), flagf) and \
+        H.f_equivalent(pcond.of_stmt(_stmt_of(pe.node, du_[0])), H.f_not(flagf))
   run.ob(R3, pe.qualname, "prevented = map.setdefault(node, set()); update / difference_update",
          "should_prevent=True adds the rows to the node's exemptions, False removes them", ok,
          fi=pe.fi)
@@ -458,7 +473,13 @@ def r3_exemptions(run, w):
     return False
   clr = fn.nodes_calling(clears)
   app = fn.nodes_calling(lambda c, nm, f: nm == "self._apply_one_user_action")
-  loops = {n.id for n in cfg.nodes if n.kind == "for" and text(n.stmt.iter) == p_actions}
+  def over_actions(it):
+    # the user actions, possibly enumerated / copied
+    while isinstance(it, ast.Call) and dotted(it.func) in ("enumerate", "list", "tuple", "iter") \
+        and it.args:
+      it = it.args[0]
+    return text(it) == p_actions
+  loops = {n.id for n in cfg.nodes if n.kind == "for" and over_actions(n.stmt.iter)}
   ok = bool(clr) and bool(app) and bool(loops)
   wit = None
   if ok:
@@ -502,10 +523,14 @@ def r3_exemptions(run, w):
   ok = ok and len(subs) == 1 and not aug and not muts
   if ok:
     (sn, sx) = subs[0]
-    g = H.guard_atoms(fn.node, sn.stmt) if sn.stmt is not None else []
-    for x in [sx]:
-      pass
-    ok = any(p is True and is_exempt(t) for (t, p) in g) or not g
+    # conditions tested after the exemptions were read: nothing but "there are exemptions" may
+    # decide whether they are subtracted
+    g = []
+    for (t, p) in H.expr_atoms(fn.node, sx):
+      tn = [m for m in fn.cfg.nodes if any(x is t or H._synth_within(t, x) for x in m.exprs)]
+      if not tn or fn.cfg.dominated_by(tn[0].id, {reads[0][0].id}):
+        g.append((t, p))
+    ok = all(p is True and is_exempt(t) for (t, p) in g)
     # the evaluation loop iterates the reduced set: the difference is one origin of the set the
     # rows are drawn from, its left operand being the dirty rows
     loops = []
@@ -567,6 +592,11 @@ def _access_kind(fi, attr_node):
 
 # --------------------------------------------------------------------------------------- R4
 
+def _raises_only(ifstmt):
+  """An `if` whose body only rejects the user action (validation)."""
+  return bool(ifstmt.body) and isinstance(ifstmt.body[-1], ast.Raise) and not ifstmt.orelse
+
+
 def r4_manual_updates(run, w):
   R4 = run.rule("C15-R4", "after a user update: MANUAL_UPDATES columns invalidated with "
                 "recompute_data_col=True and self-dependent columns un-exempted, for the rows "
@@ -612,34 +642,55 @@ def r4_manual_updates(run, w):
       b[ips[3]].value is True
   run.ob(R4, fn.qualname, "invalidate_column(%s, ..., recompute_data_col=True)" % col_obj,
          "the data column itself is scheduled for recalculation", ok, fi=fn.fi, node=ic)
-  g = H.guards_of(fn.node, _stmt_of(fn.node, ic))
-  nonempty = []
-  filt = []
-  manual = []
-  other = []
-  for (t, p) in g:
-    if isinstance(t, ast.Name) and not from_trim(t, flow.node_of(t), 2)[0]:
-      d = E.local_defs(fn.node, t.id)     # a flag computed just before: look at its definition
-      if len(d) == 1:
-        t = d[0]
-    if p is True and isinstance(t, ast.Name) and from_trim(t, flow.node_of(t), 2)[0]:
-      nonempty.append(t)
-    elif p is False and _data_col_with_formula_skip(t, col_obj):
-      filt.append(t)
-    elif _recalc_when_holds(t, p, "MANUAL_UPDATES") is not None and \
-        _col_rec_lookup(fn, _recalc_when_holds(t, p, "MANUAL_UPDATES"), p_table, col_id):
-      manual.append(t)
-    elif _within(t, cl):
-      other.append((t, p))
-    # (conditions outside the column loop other than the emptiness test are whole-action early
-    # exits -- validation that rejects the user action -- and are not of interest here)
+  def key(e):
+    e2 = H.inline(flow, e)
+    t2 = text(e2)
+    if t2 == "%s.is_formula()" % col_obj:
+      return "is-formula"
+    if t2 == "%s.has_formula()" % col_obj:
+      return "has-formula"
+    rec = _is_recalc_when(e2, "MANUAL_UPDATES")
+    if rec is not None and _col_rec_lookup(fn, rec, p_table, col_id):
+      return "manual-updates"
+    if isinstance(e2, ast.Attribute) and e2.attr == "recalcOnChangesToSelf" and \
+        _col_rec_lookup(fn, text(e2.value), p_table, col_id):
+      return "depends-on-itself"
+    if isinstance(e, ast.expr):
+      try:
+        en = flow.node_of(e)
+      except AnalysisError:
+        en = None
+      if en is not None:
+        if isinstance(e, ast.Compare) and len(e.ops) == 1 and isinstance(e.ops[0], ast.In) and \
+            text(e.left) == col_id and from_trim(e.comparators[0], en, 2)[0]:
+          return "column-written"
+        if not isinstance(e, (ast.Compare, ast.BoolOp, ast.UnaryOp, ast.Constant)) and \
+            from_trim(e, en, 2)[0]:
+          return "update-non-empty"
+    return None
+  cond = H.Conditions(fn, flow, key)
+  considered = H.f_and(H.f_not(H.f_atom("is-formula")), H.f_atom("has-formula"))
+  nonempty = H.f_atom("update-non-empty")
+  in_loop = cond.of_stmt(_stmt_of(fn.node, ic), scope=cl)
+  # tests made after the update was trimmed (earlier ones concern the requested update)
+  trims = {n.id for (n, c, nm) in H.calls(fn) if endswith(nm, "trim_update_action")}
+  def after_trim(t):
+    ifn = [n for n in cfg.nodes if n.kind in ("if", "while") and
+           H._synth_within(t, n.stmt.test)]
+    return bool(ifn) and bool(trims) and cfg.dominated_by(ifn[0].id, trims) and \
+        not _raises_only(ifn[0].stmt)
+  overall = cond.of_stmt(_stmt_of(fn.node, ic), keep=after_trim)
   run.ob(R4, fn.qualname, "if <columns of the trimmed update>: ...", "nothing is invalidated "
-         "when the update changed nothing", len(nonempty) == 1, fi=fn.fi, node=ic)
+         "when the update changed nothing",
+         "update-non-empty" in H.f_atoms(overall) and
+         H.f_equivalent(H.f_and(overall, H.f_not(nonempty)), H.F_FALSE), fi=fn.fi, node=ic)
+  # (conditions outside the column loop other than the emptiness test are whole-action early
+  # exits -- validation that rejects the user action -- and are not of interest here)
   run.ob(R4, fn.qualname, "if col_rec.recalcWhen == RecalcWhen.MANUAL_UPDATES: invalidate_column",
          "only columns configured for manual updates are invalidated this way (the record being "
          "this column's own), among data columns that have a formula",
-         len(manual) == 1 and len(filt) == 1 and not other,
-         witness="; ".join("%s=%s" % x for x in _gtexts(other)) or None, fi=fn.fi, node=ic)
+         H.f_equivalent(in_loop, H.f_and(considered, H.f_atom("manual-updates"))),
+         witness="invalidated when " + H.f_show(in_loop), fi=fn.fi, node=ic)
   # un-prevent for self-dependent columns
   pe = w.fn("engine.Engine.prevent_recalc")
   b = H.bind_args(uc, pe.fi)
@@ -650,21 +701,15 @@ def r4_manual_updates(run, w):
          "that were changed", ok and text(b[eps[1]]) == col_obj + ".node" and
          isinstance(b[eps[3]], ast.Constant) and b[eps[3]].value is False,
          witness="; ".join(repr(x) for x in bad) or None, fi=fn.fi, node=uc)
-  g = H.guards_of(fn.node, _stmt_of(fn.node, uc))
-  ok = False
-  for (t, p) in g:
-    parts = t.values if isinstance(t, ast.BoolOp) and isinstance(t.op, ast.And) else [t]
-    if p is True and len(parts) == 2:
-      mem = [x for x in parts if isinstance(x, ast.Compare) and isinstance(x.ops[0], ast.In) and
-             text(x.left) == col_id and
-             from_trim(x.comparators[0], flow.node_of(x.comparators[0]), 2)[0]]
-      selfdep = [x for x in parts if isinstance(x, ast.Attribute) and
-                 x.attr == "recalcOnChangesToSelf" and
-                 _col_rec_lookup(fn, text(x.value), p_table, col_id)]
-      ok = ok or (len(mem) == 1 and len(selfdep) == 1)
+  rel_loop = cond.of_stmt(_stmt_of(fn.node, uc), scope=cl)
+  want = H.f_and(considered, H.f_atom("column-written"), H.f_atom("depends-on-itself"))
+  # the release may also be left to the cases where it matters less strictly, but never widened
+  ok = H.f_equivalent(rel_loop, want) or \
+      H.f_equivalent(rel_loop, H.f_and(H.f_atom("column-written"), H.f_atom("depends-on-itself")))
   run.ob(R4, fn.qualname, "if col_id in <columns of the trimmed update> and "
          "col_rec.recalcOnChangesToSelf: un-prevent", "only a column that was itself written and "
-         "depends on itself is released", ok, fi=fn.fi, node=uc)
+         "depends on itself is released", ok, witness="released when " + H.f_show(rel_loop),
+         fi=fn.fi, node=uc)
   # both happen after the doc action was applied
   main = set()
   for (n, c, nm) in fn.calls():
@@ -725,25 +770,30 @@ def r5_rebuild_trigger(run, w):
            if E.is_engine_call("trigger_columns_changed")(c, nm, fn)]
   ok = len(calls) == 1
   if ok:
-    g = H.guards_of(fn.node, _stmt_of(fn.node, calls[0][1]))
-    ok = len(g) == 1 and g[0][1] is True
-    if ok:
-      t = g[0][0]
-      parts = t.values if isinstance(t, ast.BoolOp) and isinstance(t.op, ast.And) else [t]
-      tabs = [x for x in parts if isinstance(x, ast.Compare) and isinstance(x.ops[0], ast.Eq) and
-              text(x.left) == ps[1] and isinstance(x.comparators[0], ast.Constant) and
-              x.comparators[0].value == "_grist_Tables_column"]
-      fields = set()
-      for x in parts:
-        ors = x.values if isinstance(x, ast.BoolOp) and isinstance(x.op, ast.Or) else []
-        for o in ors:
-          if isinstance(o, ast.Compare) and isinstance(o.ops[0], ast.In) and \
-              isinstance(o.left, ast.Constant) and text(o.comparators[0]) == ps[3]:
-            fields.add(o.left.value)
-      ok = len(tabs) == 1 and len(parts) == 2 and {"recalcWhen", "recalcDeps"} <= fields
-      ok = ok and fn.cfg.dominated_by(fn.cfg.exit.id,
-                                      {n.id for n in fn.cfg.nodes if n.kind == "if" and
-                                       n.stmt.test is t})
+    bflow = H.Flow(fn)
+    def key(e):
+      e2 = H.inline(bflow, e)
+      if isinstance(e2, ast.Compare) and len(e2.ops) == 1:
+        l, r = e2.left, e2.comparators[0]
+        if isinstance(e2.ops[0], ast.Eq):
+          pair = {text(l), text(r)}
+          if ps[1] in pair and any(isinstance(x, ast.Constant) and
+                                   x.value == "_grist_Tables_column" for x in (l, r)):
+            return "column-metadata"
+        if isinstance(e2.ops[0], ast.In) and isinstance(l, ast.Constant) and \
+            isinstance(l.value, str) and text(r) == ps[3]:
+          return "writes:" + l.value
+      return None
+    cond = H.Conditions(fn, bflow, key)
+    actual = cond.of_stmt(_stmt_of(fn.node, calls[0][1]))
+    want = H.f_and(H.f_atom("column-metadata"),
+                   H.f_or(H.f_atom("writes:recalcWhen"), H.f_atom("writes:recalcDeps")))
+    ok = H.f_equivalent(H.f_or(H.f_not(want), actual), H.F_TRUE)
+    # ... and every path through the doc action comes by that test
+    gate = {calls[0][0].id} | {n.id for n in fn.cfg.nodes if n.kind == "if" and
+                               any(str(a).startswith(("column-metadata", "writes:"))
+                                   for a in H.f_atoms(cond.of_expr(n.stmt.test)))}
+    ok = ok and fn.cfg.dominated_by(fn.cfg.exit.id, gate)
   run.ob(R5, fn.qualname, "if table_id == '_grist_Tables_column' and ('recalcWhen' in columns or "
          "'recalcDeps' in columns): trigger_columns_changed()", "every metadata update that "
          "touches a trigger configuration schedules a rebuild of the edges", ok, fi=fn.fi)
